@@ -39,6 +39,7 @@ type Op struct {
 	Trim    bool        `json:"trim,omitempty"`
 	Fault   *Fault      `json:"fault,omitempty"`
 	Line    string      `json:"line,omitempty"`
+	Chunks  bool        `json:"chunks,omitempty"` // the line reaches the container in two Write calls: its text, then its line feed
 }
 
 type Cfg struct {
@@ -50,6 +51,7 @@ type Cfg struct {
 	Delay    bool   `json:"delay"`    // WithRenderDelay
 	OutFault int    `json:"outfault"` // k-th output Write fails (0 = never)
 	Ctx      bool   `json:"ctx"`      // NewWithContext with a harness-owned cancel
+	Narrow   bool   `json:"narrow"`   // the width is too small for the rows to be parsed: only rules that do not read row contents apply
 	AutoToo  bool   `json:"autotoo"`  // WithAutoRefresh() given together with WithManualRefresh (manual wins, as documented)
 }
 
